@@ -65,3 +65,13 @@ Theorem C08_get_spec : forall t k, wf_tree t = true ->
   Cursor.get t k = option_map Cursor.to_item (find (fun e => beq (lent_key e) k) (flatten t)).
 Proof. exact get_spec. Qed.
 Print Assumptions C08_get_spec.
+
+(* ---- on every tree the engine model commits (any history, any bucket), not only on trees assumed well-formed: the cursor
+   machine's get / scan / every range / seek agree with the reference (EngineReadBridge.history_read, quoted in full in
+   props/C01.v as C01_committed_data_reads_back_as_reference). The read-path specifications hold without the equal-height
+   conjunct of wf_tree (NH.*_nh), which is what the engine's invariant provides. ---- *)
+From Jamm Require EngineReadBridge.
+Theorem C08_read_specs_without_height : forall t k, EngineReadBridge.NH.wf_tree_nh t = true ->
+  Cursor.get t k = option_map Cursor.to_item (find (fun e => beq (lent_key e) k) (flatten t)).
+Proof. exact EngineReadBridge.NH.get_spec_nh. Qed.
+Print Assumptions C08_read_specs_without_height.
